@@ -35,6 +35,7 @@ type propInfo struct {
 	Race          bool              `json:"race"`
 	RacePhases    []int             `json:"race_phases"`
 	PhaseBudget   []int             `json:"phase_budget"`
+	HangKind      string            `json:"hang_kind"`
 	Procs         int               `json:"procs"`
 	Workers       int               `json:"workers"`
 	RunTimeoutSec int               `json:"run_timeout_sec"`
@@ -836,6 +837,9 @@ func (ck *checker) confirmDeath(cs core.Case, reason string, spec workerSpec) {
 		if ck.id == "C02" {
 			v.Prop = "C02"
 			ck.addViolation(rf)
+		} else if ck.info.HangKind != "" {
+			v.Prop, v.Kind = ck.id, ck.info.HangKind
+			ck.addViolation(rf)
 		} else {
 			// hangs are attributed to C02 (DESIGN §5 C02); recorded as a note under other checks
 			ck.mu.Lock()
@@ -916,6 +920,15 @@ func (ck *checker) describeFatal(cs core.Case, spec workerSpec) (core.Case, fata
 	return full, fd
 }
 
+// hangViolation builds the violation for a run that does not finish: C02's hang, or this
+// property's own stall kind.
+func (ck *checker) hangViolation(entry, site, detail string) *core.Violation {
+	if ck.info.HangKind != "" {
+		return &core.Violation{Prop: ck.id, Kind: ck.info.HangKind, Entry: entry, Site: site, Detail: detail}
+	}
+	return &core.Violation{Prop: "C02", Kind: "hang", Entry: entry, Site: site, Detail: detail}
+}
+
 // regression re-executes the committed replays of this property before any seeded exploration.
 func (ck *checker) regression() {
 	ck.knownSeen = map[string]bool{}
@@ -943,7 +956,7 @@ func (ck *checker) regression() {
 				v = out.Viol
 			case ended == "timeout":
 				_, hsite := classifyCrash(tail)
-				v = &core.Violation{Prop: "C02", Kind: "hang", Entry: rf.Violation.Entry, Site: hsite, Detail: "regression replay did not finish"}
+				v = ck.hangViolation(rf.Violation.Entry, hsite, "regression replay did not finish")
 			case ended == "returned":
 			default:
 				class, site := classifyCrash(tail)
@@ -997,7 +1010,7 @@ func (ck *checker) finish(wall time.Duration) int {
 			machineryFailed = true
 		}
 		// confirm recoverable violations by replaying the file in a fresh process
-		if rf.Violation.Kind != "fatal" && rf.Violation.Kind != "hang" && rf.Violation.Kind != "race" {
+		if rf.Violation.Kind != "fatal" && rf.Violation.Kind != "hang" && rf.Violation.Kind != "race" && rf.Violation.Kind != "stall" {
 			out, _, ended, _ := ck.soloRun(&rf.Case, path, 3*ck.runTimeout, false, ck.info.Procs)
 			if ended != "returned" || out == nil || out.Viol == nil || sanitize(out.Viol.Sig()) != sig {
 				got := ended
@@ -1217,7 +1230,7 @@ func doReplay(bin, raceBin string, info *propInfo, path, tier string, kf []findi
 		}
 	case ended == "timeout":
 		_, hsite := classifyCrash(tail)
-		v = &core.Violation{Prop: "C02", Kind: "hang", Entry: rf.Violation.Entry, Site: hsite, Detail: tail}
+		v = ck.hangViolation(rf.Violation.Entry, hsite, tail)
 	default:
 		class, site := classifyCrash(tail)
 		kind := "fatal"
